@@ -229,3 +229,58 @@ MANIFEST_TEXT["C10"] = {
     "note": "Partial: crashes or hangs inside the standard library, protobuf or go-eventlog on adversarial bytes are only explored. Trusted: Lean kernel, extractor, harness.",
     "technique": "Lean 4 proof (panic-carrying Go-faithful models) + crash-only differential exploration",
 }
+
+# ---- verification group, part A (C01 C02 C11)
+PROPS["C01"] = {
+    "project": strip_cls,
+    "rule": "complete synthetic attestation worlds (harness/world: PKI, quote, signed collateral, CRLs, scripted getter) and the repository's Intel sample quote through the real verify.TdxQuote, every world also put to the model (V.verify): "
+            "(a) single-bit mutants of every wire byte in front of the certificate chain (header, TD body, signed-data size, signature, attestation key, certification type/size, QE report, QE report signature, auth size, auth data, chain type/size) of 3 genuine synthetic quotes (auth data 32 / 1-63 / 0 bytes) and of tdx_prod_quote_SPR_E4.dat, each flipped in the corresponding message field (self-checked: the mutated message serialises to the genuine bytes with exactly that bit flipped) — quick: one bit of every byte plus all bits of the version/type/size fields, thorough: all bits — rotating over the three valid option levels; "
+            "(b) 40 structured forgeries x 4 option settings x 2 (quick) / 25 (thorough) fresh worlds with otherwise honest collateral: quote signed by a foreign key / the leaf key, r and s swapped, zeroed, r zeroed, one bit flipped, signature over the header only / the body only / the digest; attestation key replaced by a foreign on-curve key, an off-curve point, zeros (QE report re-bound, so only link 1 breaks) or exchanged / x-y swapped after signing; QE report signed by the attestation key / a foreign key / the intermediate / the root / the TCB signer; report data = wrong hash, right hash with non-zero tail, hash of the key alone, hash of auth||key (QE report re-signed by the leaf, only link 2 breaks); auth data changed / extended / truncated after signing; a header field, a body field, two swapped body fields, REPORT_DATA with trailing zeros dropped / truncated / extended (F15), a QE report field, the QE report data changed after signing; QE report signature bit-flipped / zeroed / swapped / replaced by the quote signature; controls: honest world, (r, n-s) malleated signature; "
+            "(c) 2 000 (quick) / 50 000 (thorough) random multi-byte mutants (runs, scattered bytes, whole field, zero/ones fill, numeric perturbation, length changes) of 1-3 random message fields. "
+            "A case is non-trivial throughout (every world runs the pipeline); distinct = distinct (fault, options, error class, line hash bucket)",
+    "trusted_base": ["ECDSA P-256, SHA-256, PEM and X.509 parsing are the Go standard library's and enter the model as oracle facts (Crypto.verifyRaw / verifyCert / sha256, PemFacts, CertF) computed by harness/world/facts.go with crypto/ecdsa, crypto/sha256, crypto/x509 on the message's own fields",
+                     "the 'no covered bit can change' clause is proved relative to explicit binding hypotheses on the given genuine quote (each genuine signature verifies only its original digest under its key; SHA-256 does not collide on the two inputs at hand), not as a claim about ECDSA or SHA-256",
+                     "the property oracle recomputes the three links with crypto/ecdsa.Verify / crypto/sha256 / crypto/x509 on world.HeaderBytes / BodyBytes / QeReportBytes of the message and the first PEM block of its chain, independently of model, facts and code"],
+    "assumptions": ["protobuf nil/empty bytes are identified", "names inside certificates are valid UTF-8 (the line protocol carries them as strings; random chain mutations that break this are reverted and counted)"],
+}
+
+MANIFEST_TEXT["C01"] = {
+    "text": "Lean theorems over every world, message, option setting and every Crypto parameter (acceptance implies: header||body signature verifies under the carried attestation key, QE report data = sha256(key||auth) followed by 32 zero bytes, QE report signature verifies under the chain's leaf certificate; the signed message is the re-serialised header||body; consequently any change of header, body, attestation key, QE report or auth data of a genuine quote is rejected under explicit signature/hash binding hypotheses), over the executable pipeline model TdxModel/Verify.lean, tied to verify.go by running the real verify.TdxQuote on complete synthetic worlds and the Intel sample: every single-bit mutant of the bytes in front of the chain, 40 structured forgeries under all four option settings, random multi-byte mutants — model verdict, fetched URLs and option state compared case by case, plus an independent oracle that recomputes the three links with the standard library.",
+    "note": "Partial by nature: cryptographic hardness is a parameter (the theorems speak about what was verified, the bit-flip clause is relative to binding hypotheses on the genuine quote). Trusted: Lean kernel (axioms propext/Classical.choice/Quot.sound at most), extractor, harness incl. the world generator and its fact emission; Go's crypto/ecdsa, crypto/sha256, encoding/pem, crypto/x509 as oracle facts. Bits of SignedDataSize and CertificationData.Size are not covered by any link and are not checked by CheckQuoteV4 (observation O-1): such mutants are accepted, by model and code alike, and are not violations.",
+    "technique": "Lean 4 proof over an executable model of the verification pipeline + differential correspondence on generated attestation worlds (bit-exhaustive + structured + random) + independent property oracle",
+}
+
+PROPS["C02"] = {
+    "project": strip_cls,
+    "rule": "synthetic worlds with a genuine PKI A and a look-alike PKI B (identical subject names, optionally identical serial numbers, other keys; each with complete self-consistent collateral and CRLs) through the real verify.TdxQuote under the three valid option levels (1 in 12: CheckRevocations without GetCollateral), every world also put to the model: "
+            "chain composition {A,B}^3 (leaf, intermediate, root) x pool {A, B, A then B, B then A, empty, nil = embedded Intel root, A + TCB signer} (56) + B chain with A's collateral and both roots listed; pools listing the intermediate, the leaf, look-alike intermediate/leaf, the TCB signer (8); role confusion (27): TCB signer as leaf (as is / with SGX extension under the intermediate / under the root), intermediate, root, a CA with SGX extension as leaf, leaf issued directly by the root (also with the root in the intermediate position), intermediate not a CA / without certSign, root not a CA, 7 leaf CNs other than the PCK phrase (trailing space, case, NUL, plural, other roles, empty), leaf without SGX extension (5 and 6 extensions), intermediate CN Processor CA / other, root CN other, cross-signed copy of the listed root in the chain, CA flag on an otherwise genuine PCK leaf (accepted: it is a PCK certificate); chain shapes (41): nil, empty, 1 / 2 / 4 blocks (2 blocks also with NUL, with the root as second block, with the intermediate listed), 4 wrong PEM types x 3 positions, unparsable DER x 3 positions, trailer NUL (accepted) / two NULs / letter / newline / NUL+newline / space / 0x01 / 0xff / stray END line, 6 orders and repetitions, text in front of the first block (accepted); 1 (quick) / 14 (thorough) fresh worlds per kind and level. "
+            "Harness-only lines: 30 verify.RootOfTrustToOptions configurations with bundle files written to the run directory (nil, empty, one/two files, two certificates in one file, certificate amid text / key block / unparsable CERTIFICATE block, inline one/two/two-in-one, mixed, intermediate or leaf listed, empty / text / binary / key-only / unparsable-only file, missing file, good then missing / empty, empty then good, good file + empty or text inline, directory as path): the pool must equal (CertPool.Equal) the set of listed certificates, a chain of each PKI must verify against it (crypto/x509 and verify.TdxQuote with the produced options) iff one of its certificates is listed, nil pool iff both lists are empty, error iff some bundle is unreadable or lists no certificate, check_crl/get_collateral carried over. "
+            "Non-trivial throughout; distinct = distinct (fault, options, error class, line hash bucket)",
+    "trusted_base": ["PEM decoding, X.509 parsing, signature checking and Certificate.Verify path building are the Go standard library's; they enter the model as facts (PemFacts, CertF.signedBy / canSignCert / validity, pool membership) and the model's pathValid states what Verify does for pools of listed certificates and at most one intermediate",
+                     "the property oracle calls crypto/x509 itself: three CERTIFICATE blocks, leaf CN and SGX extension, intermediate and root CN, leaf.Verify(Roots = the listed certificates or the embedded root, Intermediates = the carried second block, CurrentTime = Now.PckCertChain, any key usage) with a returned chain that passes only through the carried intermediate",
+                     "verify.RootOfTrustToOptions is checked by the harness oracle only (file system and PEM bundle parsing are not modelled beyond the decision theorem)"],
+    "assumptions": ["a caller who lists the intermediate or the leaf itself in the trusted pool has made it a trust anchor (Go's x509 semantics): acceptance is then not a violation",
+                    "verify.RootOfTrustToOptions(nil) crashes (nil message dereference): recorded as an observation for C10, not judged here since a nil message lists nothing"],
+}
+
+MANIFEST_TEXT["C02"] = {
+    "text": "Lean theorems over every world and option setting (acceptance implies three CERTIFICATE blocks, leaf named Intel SGX PCK Certificate with an SGX extension signed by the carried Platform CA intermediate, that signed by the carried self-signed Intel SGX Root CA, and a path leaf -> carried intermediate -> member of the effective pool, the embedded root when no pool is given; a pool none of whose keys verifies the chain rejects whatever the names are; wrong leaf role rejects; the root-of-trust pool is exactly the listed certificates), over TdxModel/Verify.lean, tied to verify.go by running the real verify.TdxQuote on worlds with a genuine and a same-named look-alike PKI: all A/B chain compositions x pools, role-confusion chains, chain shapes, pools listing non-roots — compared with the model case by case, plus an independent crypto/x509 oracle; verify.RootOfTrustToOptions on 30 bundle configurations against an exact-pool oracle.",
+    "note": "X.509 parsing, signature and path validation are the standard library's and enter as facts. Trusted: Lean kernel (axioms propext/Classical.choice/Quot.sound at most), extractor, harness with its world generator. The intermediate must be named Platform CA (observation O-3: Processor CA chains are fetched for but rejected). A leaf or intermediate that the caller lists in the pool is a trust anchor by Go's x509 semantics.",
+    "technique": "Lean 4 proof over an executable model of the verification pipeline + differential correspondence on generated two-PKI worlds + independent crypto/x509 oracle",
+}
+
+PROPS["C11"] = {
+    "project": strip_cls,
+    "rule": "1 000 (quick) / 20 000 (thorough) honest synthetic worlds through the real verify.TdxQuote, one third each at base / collateral / collateral+revocation level, every world also put to the model; per world independently random: header, body and QE report field contents (random / all zero / all ones), QE auth data length 0-4096 (boundaries 0,1,31,32,33,63,64,65,255,256,1023,4095,4096), 0-64 bytes after the signed data, NUL after the chain or not, the 16 SGX and 16 TDX SVN components from {0,1,127,128,129,200,254,255,random}, PCE SVN up to 65535, TEE_TCB_SVN[1] zero / non-zero, TCB level lists of length 1-8 with the first matching UpToDate level at every position (earlier levels exceed the platform in one SGX component, the PCE SVN or one compared TDX component — half of them equal to the platform elsewhere; later levels arbitrary incl. Revoked), 1-5 module identities with the matching TDX_<hex> id at any position among near-miss ids (+ a later duplicate with Revoked), module and QE level lists of length 1-6 / 1-8 with the match at every position, masks random / zero / ones, FMSPC lower / upper / mixed case, certificate serials of 8-158 bits, CRLs with 0-15 other serials incl. serial+-1, +2^64, mod 2^64, <<8 of the checked ones (1 in 6: the serial of a certificate of the other issuer), 0-3 failing (unreachable / garbage) root-CRL distribution points before the good one and 0-2 after it, every certificate, document and CRL with its own validity window around a common instant (widths 0 s, 1 s, up to 1000 days) and each of the five verification times at the lower bound, the upper bound, 1 ns inside it or anywhere inside its own window, 1 in 8 worlds with Now = nil and windows of years around the wall clock, pools with 0-3 further roots (unrelated, same-named with another key, expired) in random order. "
+            "Plus tdx_prod_quote_SPR_E4.dat and ccel/cos-113-tdx-quote.dat, read by the harness's own layout reader, under the embedded Intel root (nil pool) at the middle, the lower and the upper bound of their chain's validity window, at 2023-12-01 and at the wall clock (base level: must be accepted); with collateral their verdict (nothing can be fetched) is only compared with the model. Non-trivial throughout",
+    "trusted_base": ["the Go standard library's PEM / X.509 / JSON / ECDSA / SHA-256 enter the model as oracle facts computed by harness/world/facts.go",
+                     "'honest' is the generator's construction (harness/cmd/tdxdriver/cv_c11.go c11Spec on top of cverify.go honestSpec), not derived from model or code; the Lean predicate Honest is a statement about the facts of such a world"],
+    "assumptions": ["wall-clock cases (Now = nil) assume the run takes less than a day and the sandbox clock lies inside 2022-2029 for the SPR sample / 2024-2031 for the COS sample (otherwise those cases are not claimed honest)",
+                    "serial numbers are per issuer: a CRL entry equal to the serial of a certificate of another issuer does not list that certificate"],
+}
+
+MANIFEST_TEXT["C11"] = {
+    "text": "Lean theorems honest_accepted_base / _collateral / _revocation over every world whose facts satisfy the decidable predicate Honest (three links valid; chain rooted in the effective pool and in date at its time; collateral authentic, in date, ids/versions right, identity fields matching, the first matching platform / module / QE level at any index UpToDate; CRLs authentic, in date, not listing the checked serials), over TdxModel/Verify.lean, tied to verify.go by running the real verify.TdxQuote on 1 000 / 20 000 honest synthetic worlds covering the variety of the statement (auth data 0-4096 bytes, extra bytes, NUL, SVN >= 128, match at every list position, boundary instants of every window, Now = nil, several CRL distribution points, extra roots) at the three option levels and on both genuine Intel sample quotes under the embedded root — compared with the model case by case; oracle: an honest world was rejected.",
+    "note": "Trusted: Lean kernel (axioms propext/Classical.choice/Quot.sound at most), extractor, harness with its world generator (honesty is by construction of the generator). With the recorded 2023 collateral the Intel samples cannot be expected to pass the TCB comparison; they are required to be accepted at the base level only.",
+    "technique": "Lean 4 proof over an executable model of the verification pipeline + differential correspondence on generated honest worlds + genuine sample quotes",
+}
